@@ -365,6 +365,9 @@ func (c *Core) GetTransactionsWithResults(ctx context.Context, height int64) (*c
 		return nil, err
 	}
 
+	if len(meta.TxsResults) != len(txs) {
+		return nil, fmt.Errorf("mismatched number of transaction results")
+	}
 	txResults, err := full.TransactionResultsFromCometBFT(lb.Height, txs, meta.TxsResults)
 	if err != nil {
 		return nil, err
